@@ -33,7 +33,7 @@ class ExploreResult:
 
 
 def explore(program, name, driver, setup=None, timeout_ms=20000, max_paths=4000, record_smt=False, stop_on_sat=False, recheck=0,
-            roots=None, split_after=0):
+            roots=None, split_after=0, budget_s=None):
     """driver(it) runs one path; returns a short outcome label.
 
     roots        decision prefixes to start from (default: the empty prefix = the whole tree); every
@@ -48,11 +48,18 @@ def explore(program, name, driver, setup=None, timeout_ms=20000, max_paths=4000,
         if len(res.paths) >= max_paths:
             res.truncated = True
             break
+        if budget_s is not None and time.time() - t0 > budget_s:
+            # e.g. a change made a loop non-terminating: the path tree is infinite.  Shortest prefixes
+            # are explored first, so a violation on a short path has been found by now.
+            res.truncated = True
+            break
         if split_after and len(res.paths) >= split_after and len(work) >= 2:
             res.leftover = work
             break
-        prefix = work.pop()
+        prefix = work.pop(0)
         ctx = Ctx(program, prefix, timeout_ms=timeout_ms, record_smt=record_smt)
+        if budget_s is not None:
+            ctx.deadline = t0 + budget_s + 30
         if recheck > 0 and len(res.paths) < 3:
             ctx.recheck_left = recheck
         it = Interp(program, ctx)
